@@ -1267,6 +1267,7 @@ class AV:
                 a_ = tuple(("spread", self._ev(x.value, fr)) if isinstance(x, ast.Starred) else self._ev(x, fr) for x in node.args)
                 k_ = tuple(sorted((k.arg or "**", self._ev(k.value, fr)) for k in node.keywords))
                 fr.env[name] = mk_list(_items(base) + (("ev", m, a_, k_),))
+                self.call_log.append((fr.func, node, ("mcall", cur if cur[0] == "call" else ("sym", name), m, tuple(x for x in a_), k_)))
                 return
             if m in ("append", "add", "extend", "update", "insert", "pop", "remove", "clear", "sort", "reverse", "setdefault", "discard") :
                 fr.env[name] = unk(f"{name}.{m}(...) not modelled")
